@@ -1,4 +1,5 @@
 CONSTANTS
+  Fill = 1
   MaxDepth = 3
 INIT Init
 NEXT Next
